@@ -189,7 +189,16 @@ impl Idle {
                             _ => (State::Idle(self), Err(Error::UnexpectedRadioResponse.into())),
                         }
                     }
-                    Err(e) => (State::Idle(self), Err(super::Error::Radio(e))),
+                    Err(e) => {
+                        // the radio may have transmitted (part of) the frame: its counter is
+                        // spent, a retry must not reuse it for a different frame
+                        if let Frame::Data = frame
+                            && mac.abort_uplink(fcnt_up)
+                        {
+                            return (State::Idle(self), Ok(Response::SessionExpired));
+                        }
+                        (State::Idle(self), Err(super::Error::Radio(e)))
+                    }
                 }
             }
         }
